@@ -1,6 +1,6 @@
 (* C03  Every archive type refines a Python dict.
    Only statements, each closed by a lemma of Store/*.v, with Print Assumptions. *)
-From Klepto Require Import OMap OMapFacts DictSpec DictFacts FileArch Backends.
+From Klepto Require Import OMap OMapFacts DictSpec DictFacts FileArch Backends DirStep.
 
 (* the specification depends only on the contents of the dict (iteration order aside) *)
 Theorem C03_spec_is_a_function_of_contents : forall a b o, wf a -> wf b -> same_contents a b ->
@@ -56,6 +56,27 @@ Proof. exact dir_rmdir_law. Qed.
 Theorem C03_dir_listing : forall fname (D : key -> Prop) st, dir_inv fname D st -> dir_asdict fname st = dir_abs st.
 Proof. exact dir_asdict_abs. Qed.
 
+(* the whole mapping protocol of the directory archive (dir_step) refines the dict, operation by
+   operation and for every history, as long as the keys used come from a universe D on which the
+   naming is injective *)
+Theorem C03_dir_refines_dict : forall fname (D : key -> Prop),
+  (forall a b, D a -> D b -> fname a = fname b -> a = b) ->
+  forall st o, dir_inv fname D st -> op_in D o ->
+  dir_inv fname D (fst (dir_step fname st o)) /\
+  same_contents (dir_abs (fst (dir_step fname st o))) (fst (dstep (dir_abs st) o)) /\
+  out_equiv (snd (dir_step fname st o)) (snd (dstep (dir_abs st) o)).
+Proof. exact dir_refines_dict. Qed.
+
+Theorem C03_dir_histories : forall fname (D : key -> Prop),
+  (forall a b, D a -> D b -> fname a = fname b -> a = b) ->
+  forall ops st m, dir_inv fname D st -> Forall (op_in D) ops -> wf m -> same_contents (dir_abs st) m ->
+  dir_inv fname D (dir_run fname st ops) /\ same_contents (dir_abs (dir_run fname st ops)) (drun m ops).
+Proof. exact dir_run_refines_dict. Qed.
+
+Theorem C03_dir_failed_op_unchanged : forall fname st o,
+  snd (dir_step fname st o) = RKeyError -> fst (dir_step fname st o) = st.
+Proof. exact dir_failed_op_unchanged. Qed.
+
 (* ... and where two distinct keys share a name, "distinct keys never alias" is refuted:
    the known finding K1 (str(key) naming: 0 and '0', 1.0 and '1.0', 'a-b' and 'a_b') *)
 Theorem C03_dir_alias_refuted : forall fname k1 k2 a b, k1 <> k2 -> fname k1 = fname k2 -> a <> b ->
@@ -96,6 +117,9 @@ Print Assumptions C03_dir_lookup.
 Print Assumptions C03_dir_store.
 Print Assumptions C03_dir_rmdir.
 Print Assumptions C03_dir_listing.
+Print Assumptions C03_dir_refines_dict.
+Print Assumptions C03_dir_histories.
+Print Assumptions C03_dir_failed_op_unchanged.
 Print Assumptions C03_dir_alias_refuted.
 Print Assumptions C03_null_discards_writes.
 Print Assumptions C03_null_answers_as_empty_dict.
